@@ -288,10 +288,19 @@ def c11(tier):
                     texts[cur] = ""
                 elif cur is not None:
                     texts[cur] += line
-            for variant in ("plain", "invalid-utf8-sibling", "directory-named-xsd", "dangling-symlink", "fifo-like-empty", "uppercase-extension"):
+            for variant in ("plain", "invalid-utf8-sibling", "directory-named-xsd", "dangling-symlink", "fifo-like-empty", "uppercase-extension",
+                            "every-sibling-a-symlink"):
                 d = os.path.join(droot, f"g{k}-{variant}")
                 os.makedirs(d)
                 for name, t in texts.items():
+                    if variant == "every-sibling-a-symlink" and name != f"f{s}.xsd":
+                        # the real files live elsewhere under other names; the directory holds links to them
+                        real = os.path.join(droot, f"g{k}-store")
+                        os.makedirs(real, exist_ok=True)
+                        with open(os.path.join(real, "real-" + name + ".txt"), "w") as fh:
+                            fh.write(t)
+                        os.symlink(os.path.join(real, "real-" + name + ".txt"), os.path.join(d, name))
+                        continue
                     with open(os.path.join(d, name), "w") as fh:
                         fh.write(t)
                 if variant == "invalid-utf8-sibling":
